@@ -18,18 +18,58 @@ Inductive ty :=
 | TDc (c: nat)               (* dataclass number c of the class table *)
 | TList (t: ty)              (* List / Tuple[T,...] / Dict[str,T] values: a comprehension over the items, in order *)
 | TOpt (t: ty)               (* Optional[T]:  <packer> if value is not None else None *)
-| TUnion (cs: list nat).     (* Union of dataclasses *)
+| TUnion (cs: list nat)      (* Union of dataclasses *)
+| TDisc (p: nat) (withfield supertypes: bool).
+    (* Annotated[P, Discriminator(field="kind" | None, include_subtypes=True, include_supertypes=...)]:
+       packed like P; unpacked by the variant dispatcher of the holder *)
 
 Record field := { f_name : nat; f_ty : ty; f_default : bool }.
 
 (* Hook flags are the *declared* hooks in the sense of builder.get_declared_hook (found in the
    MRO on a class other than DataClassDictMixin); c_ctx = ADD_SERIALIZATION_CONTEXT enabled. *)
+(* c_parent: the dataclass this one derives from (fields and hooks of the parent are already flattened
+   into c_fields / the hook flags).  c_tag: the class body binds the discriminator attribute itself
+   (variant.__dict__["kind"]).  c_disc: the class's own Config has a discriminator with include_subtypes;
+   Some true = with field (dispatch on the tag), Some false = without field (try every subclass). *)
+(* the other keyword-adding code generation options of a class: (TO_DICT_ADD_OMIT_NONE_FLAG,
+   TO_DICT_ADD_BY_ALIAS_FLAG, ADD_DIALECT_SUPPORT).  They never reach a hook; they decide which keywords a call
+   passes, which calls raise TypeError and which union members share one call expression. *)
+Definition xf := (bool * bool * bool)%type.
+Definition xf_none : xf := (false, false, false).
+Definition xf_and (a b: xf) : xf :=
+  match a, b with (a1, a2, a3), (b1, b2, b3) => (a1 && b1, a2 && b2, a3 && b3) end.
+Definition impb (a b: bool) : bool := negb a || b.
+Definition xf_le (a b: xf) : bool :=
+  match a, b with (a1, a2, a3), (b1, b2, b3) => impb a1 b1 && impb a2 b2 && impb a3 b3 end.
+Definition xf_eqb (a b: xf) : bool :=
+  match a, b with (a1, a2, a3), (b1, b2, b3) => Bool.eqb a1 b1 && Bool.eqb a2 b2 && Bool.eqb a3 b3 end.
+
 Record cinfo := { c_fields : list field;
                   c_pre : bool; c_post : bool; c_prede : bool; c_postde : bool;
-                  c_ctx : bool }.
+                  c_ctx : bool;
+                  c_parent : option nat; c_tag : option nat; c_disc : option bool;
+                  c_xf : xf }.
 Definition env := list cinfo.
-Definition empty_class : cinfo := Build_cinfo [] false false false false false.
+Definition mk_cinfo fl pre post prede postde ctx : cinfo := Build_cinfo fl pre post prede postde ctx None None None xf_none.
+Definition mk_cinfo_h fl pre post prede postde ctx par tag disc : cinfo :=
+  Build_cinfo fl pre post prede postde ctx par tag disc xf_none.
+Definition empty_class : cinfo := mk_cinfo [] false false false false false.
 Definition cls (E: env) (c: nat) : cinfo := nth c E empty_class.
+
+(* iter_all_subclasses(p): cls.__subclasses__() in definition order, depth first, pre-order *)
+Definition opt_nat_eqb (a: option nat) (b: nat) : bool := match a with Some x => x =? b | None => false end.
+Definition children (E: env) (p: nat) : list nat :=
+  filter (fun c => opt_nat_eqb (c_parent (cls E c)) p) (seq 0 (length E)).
+Fixpoint subclasses_f (E: env) (fuel: nat) (p: nat) : list nat :=
+  match fuel with
+  | 0 => []
+  | S f => flat_map (fun c => c :: subclasses_f E f c) (children E p)
+  end.
+Definition subclasses (E: env) (p: nat) : list nat := subclasses_f E (length E) p.
+Definition is_sub (E: env) (cr c: nat) : bool := existsb (Nat.eqb cr) (subclasses E c).
+(* registry[tag]: every variant registers variant.__dict__[field]; later variants overwrite earlier ones *)
+Definition lookup_tag (E: env) (vs: list nat) (t: nat) : option nat :=
+  fold_left (fun acc v => if opt_nat_eqb (c_tag (cls E v)) t then Some v else acc) vs None.
 
 (* ---------------------------------------------------------------- values *)
 (* VInst c i j fs: an instance of class c with identity i whose __pre_serialize__ (if the
@@ -97,6 +137,14 @@ Fixpoint dedup_bool (l: list bool) (seen_t seen_f: bool) : list bool :=
   | true :: r => if seen_t then dedup_bool r seen_t seen_f else true :: dedup_bool r true seen_f
   | false :: r => if seen_f then dedup_bool r seen_t seen_f else false :: dedup_bool r seen_t true
   end.
+(* distinct call expressions of a mixin union: (context keyword passed?, other keywords passed) *)
+Definition pf := (bool * xf)%type.
+Definition pf_eqb (a b: pf) : bool := Bool.eqb (fst a) (fst b) && xf_eqb (snd a) (snd b).
+Fixpoint dedup_pf (l: list pf) (seen: list pf) : list pf :=
+  match l with
+  | [] => []
+  | x :: r => if existsb (pf_eqb x) seen then dedup_pf r seen else x :: dedup_pf r (x :: seen)
+  end.
 Fixpoint dedup_nat (l: list nat) (seen: list nat) : list nat :=
   match l with
   | [] => []
@@ -111,8 +159,9 @@ Section Pack.
   Variable E : env.
   Variable stubs : bool.   (* classes derive from DataClassDictMixin (which has stub hooks returning None) *)
 
-  (* a sub-value, already closed over the recursive call: type -> parent opted in -> parent's token -> M *)
-  Definition sub := ty -> bool -> ctxtok -> M.
+  (* a sub-value, already closed over the recursive call:
+     type -> calling class opted in -> calling class's other options -> its token -> M *)
+  Definition sub := ty -> bool -> xf -> ctxtok -> M.
 
   (* Body of the to_dict generated for class cg, running on an instance (i, pre hook returns j)
      whose runtime class is cr.  kk: what the hooks receive; pc/ck: what is forwarded. *)
@@ -130,7 +179,7 @@ Section Pack.
     let pre_part : M := if c_pre G then (if c_pre R then ok_ [Pre cr i kk] else fail_) else ok_ [] in
     let fields_part : M :=
       seqM (map (fun f => match assoc (f_name f) subs with
-                          | Some s => s (f_ty f) (c_ctx G) ck
+                          | Some s => s (f_ty f) (c_ctx G) (c_xf G) ck
                           | None => fail_ end) (c_fields G)) in
     (* the instance's class does not declare the hook the generated code calls: a plain class has no such
        attribute (AttributeError); DataClassDictMixin's stub takes no context keyword (TypeError) and
@@ -139,9 +188,10 @@ Section Pack.
                                            else (stubs && negb (c_ctx G), [])) else ok_ [] in
     if early_fail G R then seq2 pre_part fail_ else seq2 pre_part (seq2 fields_part post_part).
 
-  (* value.__mashumaro_to_dict__([context=context]) *)
-  Definition call_mixin (pass: bool) (k: ctxtok) (cr i j: nat) (subs: list (nat * sub)) : M :=
-    if pass && negb (c_ctx (cls E cr)) then fail_          (* TypeError: unexpected keyword *)
+  (* value.__mashumaro_to_dict__([omit_none=..][, by_alias=..][, dialect=..][, context=context]) *)
+  Definition call_mixin (pass: bool) (px: xf) (k: ctxtok) (cr i j: nat) (subs: list (nat * sub)) : M :=
+    if (pass && negb (c_ctx (cls E cr))) || negb (xf_le px (c_xf (cls E cr)))
+    then fail_          (* TypeError: unexpected keyword *)
     else let kin := if pass then k else CNone in
          body cr cr i j subs (if c_ctx (cls E cr) then kin else CAbsent) kin.
 
@@ -154,29 +204,30 @@ Section Pack.
       match v with
       | VInst cr i j fs => Some (cr, i, j, map (fun kx => match kx with (k, x) => (k, pack m x) end) fs)
       | _ => None end in
-    let call_dc (cs: nat) (pc: bool) (k: ctxtok) : M :=
+    let call_dc (cs: nat) (pc: bool) (px: xf) (k: ctxtok) : M :=
       match inst with
       | Some (cr, i, j, subs) =>
           match m with
-          | Mixin => call_mixin (pc && c_ctx (cls E cs)) k cr i j subs
+          | Mixin => call_mixin (pc && c_ctx (cls E cs)) (xf_and px (c_xf (cls E cs))) k cr i j subs
           | Codec => call_codec cs cr i j subs
           end
       | None => fail_ end in
-    fix on_ty (t: ty) : bool -> ctxtok -> M :=
-      fun pc k =>
+    fix on_ty (t: ty) : bool -> xf -> ctxtok -> M :=
+      fun pc px k =>
       match t with
       | TInt => ok_ []
-      | TDc c => call_dc c pc k
+      | TDc c => call_dc c pc px k
+      | TDisc p _ _ => call_dc p pc px k       (* the annotation plays no role for packing *)
       | TList t' => match v with
-                    | VList l => seqM (map (fun x => pack m x t' pc k) l)
+                    | VList l => seqM (map (fun x => pack m x t' pc px k) l)
                     | _ => fail_ end
-      | TOpt t' => match v with VNone => ok_ [] | _ => on_ty t' pc k end
+      | TOpt t' => match v with VNone => ok_ [] | _ => on_ty t' pc px k end
       | TUnion cs =>
           match inst with
           | Some (cr, i, j, subs) =>
               match m with
-              | Mixin => try_each (map (fun pass => call_mixin pass k cr i j subs)
-                                       (dedup_bool (map (fun c => pc && c_ctx (cls E c)) cs) false false))
+              | Mixin => try_each (map (fun a => call_mixin (fst a) (snd a) k cr i j subs)
+                                       (dedup_pf (map (fun c => (pc && c_ctx (cls E c), xf_and px (c_xf (cls E c)))) cs) []))
               | Codec => try_each (map (fun c => call_codec c cr i j subs) (dedup_nat cs []))
               end
           | None => fail_ end
@@ -223,17 +274,24 @@ Section Wt.
   (* v is a value of type t: every instance has exactly the declared class (for a union: one
      of the members), its attributes are the class's fields in order, and when the class has
      no pre hook the "returned" identity is the instance itself. *)
+  (* allow = true: an instance of a subclass may stand where the parent is declared, provided both have the same
+     keyword-adding options (the keyword list of the call is computed from the declared class) *)
+  Variable allow : bool.
+  Definition class_ok (cr c: nat) : bool :=
+    (cr =? c) || (allow && is_sub E cr c && xf_eqb (c_xf (cls E cr)) (c_xf (cls E c))
+                  && Bool.eqb (c_ctx (cls E cr)) (c_ctx (cls E c))).
   Fixpoint wt (v: val) {struct v} : ty -> bool :=
     let inst_ok (c: nat) : bool :=
       match v with
       | VInst cr i j fs =>
-          (cr =? c) && nodupb (map fst fs) && (c_pre (cls E cr) || (i =? j))
+          class_ok cr c && nodupb (map fst fs) && (c_pre (cls E cr) || (i =? j))
           && all_fields (map (fun kx => match kx with (k, x) => (k, wt x) end) fs) (c_fields (cls E cr))
       | _ => false end in
     fix on_ty (t: ty) : bool :=
       match t with
       | TInt => match v with VInt => true | _ => false end
       | TDc c => inst_ok c
+      | TDisc p _ _ => inst_ok p
       | TList t' => match v with VList l => forallb (fun x => wt x t') l | _ => false end
       | TOpt t' => match v with VNone => true | _ => on_ty t' end
       | TUnion cs => match v with
@@ -243,13 +301,16 @@ Section Wt.
 End Wt.
 
 (* unions *)
+(* no speculative construct: no Union, no discriminator without a field *)
 Fixpoint union_free (t: ty) : bool :=
   match t with
   | TInt | TDc _ => true
   | TList t' | TOpt t' => union_free t'
-  | TUnion _ => false end.
+  | TUnion _ => false
+  | TDisc _ wf _ => wf end.
+Definition disc_det (C: cinfo) : bool := match c_disc C with Some false => false | _ => true end.
 Definition env_union_free (E: env) : bool :=
-  forallb (fun C => forallb (fun f => union_free (f_ty f)) (c_fields C)) E.
+  forallb (fun C => forallb (fun f => union_free (f_ty f)) (c_fields C) && disc_det C) E.
 
 (* mixin path: all members of every union agree on the context option *)
 Fixpoint all_same (l: list bool) : bool :=
@@ -260,7 +321,7 @@ Section Uni.
   Variable E : env.
   Fixpoint union_uniform (t: ty) : bool :=
     match t with
-    | TInt | TDc _ => true
+    | TInt | TDc _ | TDisc _ _ _ => true
     | TList t' | TOpt t' => union_uniform t'
     | TUnion cs => all_same (map (fun c => c_ctx (cls E c)) cs) end.
   Definition env_union_uniform : bool :=
@@ -275,7 +336,8 @@ Definition erase (e: ev) : ev :=
 Inductive wire :=
 | WInt
 | WNone
-| WDict (kvs: list (nat * wire))   (* a dataclass in basic form: keys are field names *)
+| WDict (tag: option nat) (kvs: list (nat * wire))
+    (* a dataclass in basic form: keys are field names; tag = the value under the discriminator key, if present *)
 | WList (l: list wire).            (* list / tuple / Dict[str,T] items in order *)
 
 (* state = next fresh instance identity; result = (decoded value or failure, events, next id) *)
@@ -343,16 +405,42 @@ Section Unpack.
     | (None, tr, n1) => (None, pre ++ tr, n1)
     end.
 
+  (* the variant dispatcher (unpack.py DiscriminatedUnionUnpackerBuilder) over the variants vs, each given as
+     "variant.from_dict(value)".  With a field: value[field] (missing key: MissingDiscriminatorError; not a mapping:
+     TypeError), then the registered class; without: try every variant in order, `except Exception: pass`. *)
+  Definition dispatch (tag: option (option nat)) (withfield: bool) (vs: list nat) (from_dict: nat -> D) : D :=
+    if withfield then
+      match tag with
+      | Some (Some t) => match lookup_tag E vs t with
+                         | Some v => from_dict v
+                         | None => dfail end       (* SuitableVariantNotFoundError *)
+      | _ => dfail
+      end
+    else dtry (map from_dict vs).
+
+  Definition disc_variants (p: nat) (supertypes: bool) : list nat :=
+    subclasses E p ++ (if supertypes then [p] else []).
+
   Fixpoint unpack (w: wire) {struct w} : dsub :=
-    let call_dc (c: nat) : D :=
+    let tag : option (option nat) := match w with WDict t _ => Some t | _ => None end in
+    (* the ordinary from_dict body of class c (hooks of c, fields, constructor) *)
+    let plain (c: nat) : D :=
       match w with
-      | WDict kvs => dbody c (map (fun kx => match kx with (k, x) => (k, unpack x) end) kvs)
+      | WDict _ kvs => dbody c (map (fun kx => match kx with (k, x) => (k, unpack x) end) kvs)
       | _ => fun n => (None, if c_prede (cls E c) then [PreDe c] else [], n)   (* hook, then d.get fails *)
+      end in
+    (* c.from_dict(value): a class whose own Config has a discriminator is only a dispatcher - its own hooks are
+       not emitted, the chosen variant's from_dict runs the variant's (possibly inherited) hooks *)
+    let call_dc (c: nat) : D :=
+      match c_disc (cls E c) with
+      | Some wf => dispatch tag wf (subclasses E c) plain
+      | None => plain c
       end in
     fix on_ty (t: ty) : D :=
       match t with
       | TInt => match w with WInt => dret VInt | _ => dfail end
       | TDc c => call_dc c
+      | TDisc p wf sup => dispatch tag wf (disc_variants p sup) plain
       | TList t' => match w with
                     | WList l => fun n => match dseq (map (fun x => unpack x t') l) n with
                                           | (Some vs, tr, n1) => (Some (VList vs), tr, n1)
@@ -420,10 +508,10 @@ Definition oval_eqb (a b: option val) : bool :=
 (* what the harness evaluates per case *)
 (* ok = None: the call raised inside a format library's encoder after the generated code returned
    (the model has no outputs), only the trace is compared *)
-Definition ser_case := (mode * bool * env * val * ty * bool * ctxtok * option bool * list ev)%type.
+Definition ser_case := (mode * bool * env * val * ty * bool * xf * ctxtok * option bool * list ev)%type.
 Definition ser_ok (c: ser_case) : bool :=
-  match c with (m, st, E, v, t, pc, k, ok, tr) =>
-    match pack E st m v t pc k with
+  match c with (m, st, E, v, t, pc, px, k, ok, tr) =>
+    match pack E st m v t pc px k with
     | (ok', tr') => match ok with Some b => Bool.eqb b ok' | None => true end && evs_eqb tr tr' end end.
 Definition de_case := (env * wire * ty * option val * list ev)%type.
 Definition de_ok (c: de_case) : bool :=
